@@ -21,7 +21,9 @@ TEXT = {
          "selection / indexing rule of every callable kind; a big-step (natural) semantics Eval of the whole evaluator with "
          "a soundness theorem (every derivation is realised by the micro-step machine under any stack with room) and the "
          "call-by-need rules of the core calculus — literal, function reference / definition, argument reference, closure call, β — "
-         "as derived rules. That the implementation computes what the model computes is "
+         "as derived rules; a memo-free call-by-name reference semantics on trees and the adequacy theorem: the evaluator (memo cells, "
+         "requestor chains, tail returns) computes exactly its values; a verified executable big-step evaluator run next to the "
+         "implementation on every case. That the implementation computes what the model computes is "
          "the correspondence on generated programs.", "5 C02"),
  'C03': ("Theorems about the coroutine trees of the model: for each position the specification declares non-strict "
          "(unselected Boolean branch, operands after the deciding one of Boolean ㄱ/ㄷ, list elements, unused arguments, "
